@@ -48,6 +48,15 @@ fn circuits() -> Vec<(&'static str, Circ, Vec<Vec<bool>>)> {
         let g3 = b.xor(g2, 2);
         v.push(("three_party", b.out(&[g1, g3, g2]), vec![vec![true], vec![true], vec![true]]));
     }
+    {
+        // the corrupted party's input reaches an output through XOR gates only (an equivocating
+        // evaluator can then make two garblers accept different values unless the broadcast is verified)
+        let mut b = B::new(&[1, 1, 1]);
+        let x = b.xor(0, 1);
+        let y = b.xor(x, 2);
+        let z = b.and(1, 2);
+        v.push(("three_party_xor", b.out(&[y, z]), vec![vec![true], vec![false], vec![true]]));
+    }
     v
 }
 
@@ -107,6 +116,9 @@ pub fn configs(tier: Tier, seed: u64) -> Result<Vec<Config>, String> {
             if name == "no_input_party" && corrupted == 0 {
                 continue;
             }
+            if name == "three_party_xor" && corrupted != 0 && !tier.is_thorough() {
+                continue;
+            }
             if !tier.is_thorough() && n == 2 && ci >= 1 && p_eval == 1 {
                 continue;
             }
@@ -160,6 +172,62 @@ pub fn main(tier: Tier, seed: u64) -> i32 {
                 || matches!(c.muts[0].node, Some(NodeMut::FlipBool) | Some(NodeMut::XorLow) | Some(NodeMut::SomeToNone) | Some(NodeMut::VecEmpty) | Some(NodeMut::NoneToSomeDefault) | Some(NodeMut::XorByte(0)))
         })
         .collect();
+    // scripted chains: an equivocating evaluator (n >= 3) announces a different masked input to one
+    // garbler and fixes up the value it later reveals to that garbler
+    let mut cases = cases;
+    {
+        use crate::schema::{Val, apply, decode_msg, encode_vec, msg_type};
+        for (ci, cfg) in cfgs.iter().enumerate() {
+            if cfg.case.n() < 3 || cfg.corrupted != cfg.case.p_eval {
+                continue;
+            }
+            for q in (0..cfg.case.n()).filter(|q| *q != cfg.corrupted) {
+                let find = |label: &str| cfg.honest.msgs.iter().position(|m| m.from == cfg.corrupted && m.to == q && m.label == label);
+                let (Some(mi), Some(li)) = (find("masked inputs"), find("lambda")) else { continue };
+                let (Ok(mv), Ok(lv)) = (decode_msg("masked inputs", &cfg.honest.msgs[mi].bytes), decode_msg("lambda", &cfg.honest.msgs[li].bytes)) else { continue };
+                let (Val::Vec(mitems), Val::Vec(litems)) = (&mv, &lv) else { continue };
+                let in_wires: Vec<usize> = mitems.iter().enumerate().filter(|(_, v)| matches!(v, Val::Opt(Some(_)))).map(|(w, _)| w).collect();
+                let out_wires: Vec<usize> = litems.iter().enumerate().filter(|(_, v)| matches!(v, Val::Opt(Some(_)))).map(|(w, _)| w).collect();
+                // every non-empty subset of output wires gets its revealed value flipped
+                for w in &in_wires {
+                    for mask in 1u32..(1 << out_wires.len().min(4)) {
+                        let mut m2 = mv.clone();
+                        let mut l2 = lv.clone();
+                        let mut ok = apply(&msg_type("masked inputs").unwrap(), &mut m2, &[*w, 0], &NodeMut::FlipBool);
+                        for (k, ow) in out_wires.iter().enumerate().take(4) {
+                            if (mask >> k) & 1 == 1 {
+                                ok &= apply(&msg_type("lambda").unwrap(), &mut l2, &[*ow, 0, 0], &NodeMut::FlipBool);
+                            }
+                        }
+                        if !ok {
+                            continue;
+                        }
+                        let mk = |detail: String, bytes: Vec<u8>, dynamic: Option<crate::exec::MutFn>| crate::adv::MsgMut { class: "struct:chain".into(), detail, bytes: std::sync::Arc::new(bytes), malformed: false, path: Some(vec![*w, 0]), node: Some(NodeMut::FlipBool), dynamic };
+                        // the second fault acts on the bytes actually sent (they differ from the honest run after the first fault)
+                        let flips: Vec<usize> = out_wires.iter().enumerate().take(4).filter(|(k, _)| (mask >> k) & 1 == 1).map(|(_, ow)| *ow).collect();
+                        let dynf: crate::exec::MutFn = std::sync::Arc::new(move |bytes: &[u8]| {
+                            let ty = msg_type("lambda")?;
+                            let mut v = crate::schema::decode(bytes, &ty).ok()?;
+                            for ow in &flips {
+                                apply(&ty, &mut v, &[*ow, 0, 0], &NodeMut::FlipBool);
+                            }
+                            Some(encode_vec(&v))
+                        });
+                        cases.push(FCase {
+                            cfg: ci,
+                            msgs: vec![mi, li],
+                            muts: vec![mk(format!("masked input of wire {w} flipped towards {q}"), encode_vec(&m2), None), mk(format!("revealed values of output wires (subset {mask:#b}) flipped towards {q}"), encode_vec(&l2), Some(dynf))],
+                            label: "masked inputs+lambda".into(),
+                            field: "masked inputs+lambda[chain]".into(),
+                            rule: Rule::Always,
+                            to_all: false,
+                            desc: format!("{}: evaluator tells party {q} a flipped masked input for wire {w} and flips the revealed values of output-wire subset {mask:#b} towards {q}", cfg.name),
+                        });
+                    }
+                }
+            }
+        }
+    }
     let results = par_map(&cases, |w, _, c| {
         let cfg = &cfgs[c.cfg];
         run_faults(cfg, faults_of(cfg, c), vec![], false, w).0
